@@ -1542,10 +1542,13 @@ class StateEngine(object):
             cause the execution to fail. Similarly, with a Task.Terminated
             error we want terminated Tasks to end immediately.
             A retry or catch on States.ALL will not catch these errors.
+            The same goes for an execution that has exceeded the execution
+            history quota: retrying or catching that would let it carry on.
             """
             unrecoverable = (error_type == "States.Runtime" or
                              error_type == "States.ExecutionTimeout" or
-                             error_type == "Task.Terminated")
+                             error_type == "Task.Terminated" or
+                             error_type == "States.ExecutionHistoryLimitExceeded")
 
             retry = state.get("Retry")
             if not unrecoverable and retry and isinstance(retry, list):
